@@ -10,6 +10,7 @@ import (
 	"math"
 	"strings"
 	"testing/fstest"
+	"io/fs"
 	"time"
 
 	vuego "github.com/titpetric/vuego"
@@ -160,9 +161,15 @@ func c11Data() []any {
 		map[any]any{S2{1, "a"}: 1, "s": 2, 3: []any{nil}}, map[uint8]any{200: nil, 3: map[any]any{1: 1, "1": 2}}, map[MyStr]int{"m": 1, "a": 2}, map[MyInt]string{2: "two", 1: "one"},
 		// strings that are nothing but the characters the attribute / style / class / pipe code strips, splits at or looks for
 		// numbers at the edges: negative, the extremes of the 64-bit kinds, infinities and NaN (a count, an index, a size somewhere?)
+		// NAMED numeric types, unsigned ones included (a permission mask, a file mode, a duration): their truth and printing follow the underlying kind
+		MyU8(3), MyU8(0), MyUint(7), MyUint(0), fs.FileMode(0o644), fs.FileMode(0), MyF32(1.5), MyF32(0), time.Duration(5), []MyU8{1, 0}, map[string]any{"perm": MyU8(5)},
 		-1, int64(-3), float64(-2), int32(-7), float32(-1), int64(math.MinInt64), int64(math.MaxInt64), uint64(math.MaxUint64), math.Inf(1), math.Inf(-1), math.NaN(), 1e300, math.Copysign(0, -1),
 		"\"", "'", " ' ", "\"\"", "''", ":", ";", ",", "{", "}", "{}", "{{", "}}", "|", " ", "\n", "-", ".", "[", "]", "(", ")", "a:", ":a", ";;", "\"a", "a'", "\\", "%", "%s", "\x00"}
 }
+
+type MyU8 uint8
+type MyUint uint
+type MyF32 float32
 
 func c11TypedEval(tpl string, x any) *Case {
 	c := &Case{Name: fmt.Sprintf("typed %T in %s", x, tpl), Input: map[string]any{"stream": "typed", "tpl": tpl, "x": toVal(x)}, Key: fmt.Sprintf("typed:%T:%s", x, tpl), Tags: []string{"stream:typed", fmt.Sprintf("type:%T", x)}}
